@@ -25,12 +25,12 @@ LEAN_MODULES = ['Glom.Props.C18']
 FACT_FILES = ['C18Facts', 'TFacts', 'ExcFacts', 'RegFacts', 'c18']
 READY = True
 MANIFEST = dict(
-    text="Lean 4 theorems, for every literal type, every root and every list of steps of any length and nesting: the parser of the repr grammar (the model of eval(repr(x)): `.name`, `.__('name')`, `[index]` with Python's tuple / trailing-comma / `()` / slice rules, `(args, k=v)`, `.__star__()`, `Path(part, …)` with Path.__init__'s flattening) applied to what `_format_t` / `_format_slice` / `format_invocation` / `_format_path` print returns the same root and steps (keyword arguments as a dict) and an object with the same repr (`c18_roundtrip_t`, `c18_roundtrip_path`, mutual induction over arguments / items / steps); `__setstate__ ∘ __getstate__` is the identity (`c18_pickle`); len, p[i], p[a:b:c], values, items, ==, startswith, Path(p, q), from_t computed on the flat `__ops__` tuple are the same operations on the list of steps for ALL Int index / slice triples (`c18_seq_laws`, with `pySlice` = CPython's slice.indices semantics and its lemmas); glom(t, Path(p, q)) = glom(glom(t, p), q) for wildcard-free paths of any length on any heap (`c18_concat`, from `walk_append` over C01's walk); per-run facts obligation `c18_facts_wf` by `decide` on the switches of `_format_t`, the pickling tables and the shape of `Path.__getitem__` read from /repo. Model tied to the code by comparing the model's rendered repr text, parse result, pickle result and every sequence operation with the real glom (index / slice triples enumerated exhaustively for lengths 0–5, bounds in [−8, 8]).",
-    note="trusted: Lean kernel + {propext, Classical.choice, Quot.sound}; extractor (extract/facts/c18.py); harness/driver; the token-tree level of the model: a literal argument is one atomic token (that eval of its bbrepr text gives the value back, and pickle of argument values, are CPython's — generated literals are checked to round-trip), bracket matching is lexical; Python's slice semantics (`pySlice`) validated exhaustively against CPython; BEq on expressions in the driver is structural equality of their JSON form. Arithmetic-operator reprs are outside the property. S/A-rooted Paths: `Path.__repr__` drops the root (known finding, see KNOWN_FINDINGS).",
+    text="Lean 4 theorems, for every literal type, every root and every list of steps of any length and nesting: the parser of the repr grammar (the model of eval(repr(x)): `.name`, `.__('name')`, `[index]` with Python's tuple / trailing-comma / `()` / slice rules, `(args, k=v)`, `.__star__()`, `Path(part, …)` with Path.__init__'s flattening, the first part carrying a root other than T) applied to what `_format_t` / `_format_slice` / `format_invocation` / `_format_path` print returns the same root and steps (keyword arguments as a dict) and an object with the same repr (`c18_roundtrip_t`, `c18_roundtrip_path`, mutual induction over arguments / items / steps); `__setstate__ ∘ __getstate__` is the identity (`c18_pickle`); len, p[i], p[a:b:c], values, items, ==, startswith, Path(p, q), from_t computed on the flat `__ops__` tuple are the same operations on the list of steps for ALL Int index / slice triples (`c18_seq_laws`, with `pySlice` = CPython's slice.indices semantics and its lemmas); glom(t, Path(p, q)) = glom(glom(t, p), q) for wildcard-free paths of any length on any heap (`c18_concat`, from `walk_append` over C01's walk); per-run facts obligation `c18_facts_wf` by `decide` on the switches of `_format_t`, the pickling tables and the shape of `Path.__getitem__` read from /repo. Model tied to the code by comparing the model's rendered repr text, parse result, pickle result and every sequence operation with the real glom (index / slice triples enumerated exhaustively for lengths 0–5, bounds in [−8, 8]).",
+    note="trusted: Lean kernel + {propext, Classical.choice, Quot.sound}; extractor (extract/facts/c18.py); harness/driver; the token-tree level of the model: a literal argument is one atomic token (that eval of its bbrepr text gives the value back, and pickle of argument values, are CPython's — generated literals are checked to round-trip), bracket matching is lexical; Python's slice semantics (`pySlice`) validated exhaustively against CPython; BEq on expressions in the driver is structural equality of their JSON form. Arithmetic-operator reprs are outside the property. An A-rooted Path has no call / wildcard step (`_t_child` refuses them).",
     technique='Lean 4 proof (parser ∘ formatter = id by mutual induction; sequence laws on the flat tuple; walk_append) + facts obligation by decide + differential correspondence with exhaustive index/slice enumeration',
     ref='DESIGN.md §3 C18, §6.6')
 RULE = ('repr: random objects of 0–8 steps (quick) / 0–10 (thorough): T expressions rooted at T, S, A and '
-        'Paths (plain segments mixed with T runs) over attribute (incl. dunder via T.__()), item '
+        'Paths rooted at T, S and A (plain segments mixed with T runs) over attribute (incl. dunder via T.__()), item '
         '(scalars, slices with None/int/nested-T parts, tuples incl. 0- and 1-tuples, tuples of slices), '
         'call (positional + keyword arguments in random order), * and ** steps; arguments are literals '
         '(ints, big ints, strings with quotes / dots / backslashes / non-ASCII, None, bools, floats, '
@@ -252,17 +252,27 @@ def outcome(spec, target):
         signal.signal(signal.SIGALRM, old)
     try:
         # S-rooted wildcards reach per-call scope internals: mask memory addresses
-        return ('ok', re.sub(r'0x[0-9a-fA-F]+', '0x?', repr(r)))
+        return ('ok', re.sub(r'0x[0-9a-fA-F]+', '0x?', repr(r)), r)
     except Exception:
-        return ('ok', '<unreprable>')
+        return ('ok', '<unreprable>', r)
 
 
 def same_outcome(a, b, strict=True):
-    if a is None or b is None or a == b:
+    if a is None or b is None:
         return True
-    # repr prints keyword arguments in key order: when the original has them in another order
-    # and evaluating two of them fails, which failure surfaces first differs (both fail)
-    return (not strict) and a[0] == 'exc' and b[0] == 'exc'
+    if a[0] == 'ok' and b[0] == 'ok':
+        if a[1] == b[1]:
+            return True
+        try:       # equal values whose text differs (a dict built from keyword arguments)
+            return bool(a[2] == b[2])
+        except Exception:
+            return False
+    if a == b:
+        return True
+    # repr prints keyword arguments in key order (as a dict they are equal): when the original has
+    # them in another order and evaluating some of them fails, which failure surfaces first — and
+    # hence whether an enclosing wildcard swallows it — depends on that order
+    return (not strict) and (a[0] == 'exc' or b[0] == 'exc')
 
 
 def kwargs_sorted(x):
@@ -486,6 +496,8 @@ def gen_step(r, depth, allow_seg):
     if p < 0.94:
         na = r.choice([0, 1, 1, 2])
         kws = r.sample(KWNAMES, r.choice([0, 0, 1, 2, 3, 4, 6]))
+        if r.random() < 0.5:
+            kws = sorted(kws)
         return {'call': {'args': [gen_arg(r, depth) for _ in range(na)],
                          'kwargs': [[k, gen_arg(r, depth)] for k in kws]}}
     return r.choice(['star', 'starstar'])
@@ -549,7 +561,7 @@ def gen_repr_case(r, tier):
         if not a_ok(root, steps):
             root = 'T'
         return {'kind': 'repr', 'obj': {'t': {'root': root, 'steps': steps}}}
-    root = 'T' if r.random() < 0.85 else r.choice(['S', 'A'])
+    root = r.choice(['T', 'T', 'T', 'S', 'S', 'A'])
     steps = fix_s_call(root, gen_steps(r, n, 2, True))
     if not a_ok(root, steps):
         root = 'T'
@@ -742,13 +754,6 @@ def shrink(case):
                 c = dict(base)
                 c[which] = st[:i] + st[i + 1:]
                 yield c
-
-
-def classify(case, verdict):
-    """known findings, recognised by the shape of the input that fails"""
-    if case['kind'] == 'repr' and 'path' in case['obj'] and case['obj']['path']['root'] != 'T':
-        return 'path_repr_drops_root'
-    return None
 
 
 def focus(disagreements, facts_changed):
